@@ -1069,6 +1069,9 @@ class MapField(Field):
         dct = self.get_value(instance)
         self.key_type.name = f'{self.name}[{len(dct)}#k]'
         new_key = self.key_type.parse_from(instance, markers, wire, offset, length, offset_btl)
+        if isinstance(new_key, memoryview):
+            # A byte-string key: a view into a writable wire cannot be hashed
+            new_key = bytes(new_key)
         markers[f'{self.name}#last_key'] = new_key
         return dct
 
